@@ -303,8 +303,12 @@ class Function(Value):
         )
 
     def to_model(self) -> model.Term:
-        module = self.body.to_model()
-        return model.Func(module.root)
+        from hugr.model.export import ModelExport
+
+        # the body is rooted in a dataflow graph (not a module): it becomes a
+        # dataflow region, as in the reference exporter
+        export = ModelExport(self.body)
+        return model.Func(export.export_region_dfg(self.body.root))
 
 
 @dataclass
